@@ -139,7 +139,7 @@ impl SatSolver for BufferedSatSolver {
         }
         let solving_result = match status {
             Some(true) => {
-                if assignment_line_seen {
+                if assignment_line_seen && assignment_line_end {
                     SolvingResult::Satisfiable(Assignment::new(assignment))
                 } else {
                     SolvingResult::Unknown
